@@ -30,7 +30,10 @@ CLAIMED = {
         text="The code's complete lookup graphs (65 536 data ids, 65 536 routine ids, 256 values of each of the 12 subfunction tables, "
              "256 response codes, 256 DTC formats) are regenerated from /repo on every run and proved equal to the Spec graphs by the kernel "
              "(decide +kernel, no sampling); Spec theorems: totality over all 16-bit ids (lifting lemma over a contiguous partition), row "
-             "soundness, exact-constant / range-only-inside / custom-fallback characterisation for every table and value, alias-aware response-code names.",
+             "soundness, exact-constant / range-only-inside / custom-fallback characterisation for every table and value, alias-aware response-code names. "
+             "The named sub-function constants (12 tables, 90 constants incl. the two ControlDTCSetting ranges) and the DTC format constants are tied to the values ISO 14229-1 assigns "
+             "(Spec.isoSubfn, transcribed from the standard; Tie.Names.subfn_iso by kernel evaluation; Props.C20.iso_tied_sound says what the tie means: every ISO constant defined with the ISO value, "
+             "every ISO value answered with the ISO name; the code may define more).",
         design_ref='DESIGN.md §3 C20',
         technique='Lean 4 proof; model regenerated from source (complete finite graphs) + decide +kernel tie; exhaustive differential check vs Spec'),
     'C19': dict(
@@ -117,7 +120,7 @@ CLAIMED = {
              "a theorem for every builder, including RequestFileTransfer (rft_frame_decodes), all 13 simple wrappers and DynamicallyDefineDataIdentifier by source identifier. The sub-function "
              "dispatch of read_dtc_information and RequestFileTransfer (accepted argument kits and reply readings for every sub-function / mode byte) and the accepted interval of 30 validated "
              "arguments are obtained by running the real code on fixed probes on every run; the kernel evaluates the model on the same probes and demands the same tables (Tie/Groups, Tie/Bounds). Tied by structured calls on every entry point and wrapper: real client vs udsdrv, and the Spec decoder applied "
-             "to the frame the real client sent.",
+             "to the frame the real client sent. Arguments given by name: the library's sub-function constants carry the ISO values (Tie/Names.subfn_iso) and a call with the constant puts that value on the wire (iso_consts suite).",
         design_ref='DESIGN.md §3 C01',
         technique='Lean 4 proof (decode∘encode per service, list induction, table tie by decide +kernel) + differential correspondence + Spec decoder on the implementation\'s frames'),
     'C02': dict(
